@@ -393,5 +393,6 @@ package altair
 //@   assigns ghost(n_set_mix), ghost(last_set_mix_epoch), ghost(last_set_mix)
 //@   assigns ghost(n_set_lhdr), ghost(set_lhdr)
 //@   assigns ghost(n_viter), ghost(viter_pos), ghost(viter_reg), ghost(n_val_write), ghost(n_wd_write), ghost(n_set_exit), ghost(set_exit_v), ghost(set_exit_val), ghost(n_set_wd), ghost(set_wd_v), ghost(set_wd_val)
+//@   assigns ghost(n_inc_depidx), ghost(n_add_val), ghost(add_val_pub), ghost(add_val_creds), ghost(add_val_bal)
 
 // END C18 generated
